@@ -272,6 +272,116 @@ def hash_seeds(ctx):
         if ref is None:
             ref = [x[0] for x in val]
 
+KEYWORD_PLUGIN_SRC = """
+import numpy
+from mpilot import params
+from mpilot.commands import Command
+
+
+class Scaled(Command):
+    \"\"\" a plug-in reader-like command: several keywords of its DataType stand for one Python type, and the body looks at the keyword that was written \"\"\"
+    inputs = {"Values": params.ListParameter(params.NumberParameter()),
+              "DataType": params.DataTypeParameter(required=False, valid_types={"Fraction": float, "Percent": float, "Permille": float, "Count": int, "Rank": int})}
+    output = params.DataParameter()
+
+    def execute(self, **kw):
+        word = self.get_argument_value("DataType", "Fraction")
+        arr = numpy.ma.array(kw["Values"], dtype=kw.get("DataType", float))
+        if word in ("Percent", "Permille"):
+            arr = arr / (100.0 if word == "Percent" else 1000.0)
+        if word == "Rank" and arr.min() < 1:
+            raise ValueError("ranks start at 1")
+        return arr
+"""
+
+
+def datatype_keywords(ctx):
+    """every keyword a command declares for a DataType-like argument (the csv reader's DataType / ReturnType, the NetCDF reader's DataType - where several keywords stand
+    for one Python type and the reader looks at the keyword itself -, a plug-in of the same make), on data that makes the keyword matter (values just / far beyond
+    [-1, 1], negative values, fractions): programs from source and built through add_command, saved and loaded back - the same arguments, and every command
+    gives the same result (type, values, mask) or the same error as in the original"""
+    import sys, types
+    import numpy
+    from netCDF4 import Dataset
+    from mpilot.program import Program, EEMS_CSV_LIBRARIES, EEMS_NETCDF_LIBRARIES
+    from mpilot.params import DataTypeParameter
+    rng = ctx.rng
+    name = "mpverif_c15_keywords"
+    if name not in sys.modules:
+        m = types.ModuleType(name)
+        sys.modules[name] = m
+        exec(compile(KEYWORD_PLUGIN_SRC, name, "exec"), m.__dict__)
+    tmp = common.tmpdir("mpv_c15k_")
+    fields = {"near_fuzzy": [-1.004, -0.5, 0.25, 1.003], "far": [-3.5, 0.5, 2.25, 7.0], "signed": [3.0, -2.0, 1.0, 0.5], "counts": [1.4, 2.6, 3.0, 7.5], "unit": [0.0, 0.25, 1.0, 0.5]}
+    with Dataset(os.path.join(tmp, "in.nc"), "w") as ds:
+        ds.createDimension("x", 4)
+        for f, vals in fields.items():
+            ds.createVariable(f, "f8", ("x",))[:] = vals
+    with open(os.path.join(tmp, "in.csv"), "w") as f:
+        f.write(",".join(fields) + "\n" + "\n".join(",".join(repr(fields[k][i]) for k in fields) for i in range(4)) + "\n")
+
+    def outcomes(program):
+        found = {}
+        for rn, command in program.commands.items():
+            try:
+                r = command.result
+                found[rn] = (str(r.dtype), [None if x is None else round(float(x), 12) for x in numpy.ma.array(r, dtype=float).tolist()]) if isinstance(r, numpy.ndarray) else repr(r)
+            except Exception as e:
+                found[rn] = "raises " + (type(e.exc).__name__ if hasattr(e, "exc") else type(e).__name__)
+        return found
+
+    for libs, infile in ((EEMS_NETCDF_LIBRARIES + (name,), "in.nc"), (tuple(EEMS_CSV_LIBRARIES) + (name,), "in.csv")):
+        base = Program(libraries=libs, working_dir=tmp)
+        for cls in sorted(base.command_library.values(), key=lambda c: c.name):
+            typed = sorted(n for n, p_ in cls.inputs.items() if isinstance(p_, DataTypeParameter))
+            if not typed:
+                continue
+            # one command per (argument, keyword, field); in one program of all of them and in programs of one keyword each
+            calls = []
+            for an in typed:
+                for kw in cls.inputs[an].valid_types:
+                    for fi, field in enumerate(fields):
+                        args = [("Values", list(fields[field]))] if "Values" in cls.inputs else [("InFileName", infile), ("InFieldName", field)]
+                        calls.append(("%s_%s_%d" % (an, "".join(ch for ch in kw if ch.isalnum()), fi), kw, args + [(an, kw)]))
+            groups = [calls] + [[c for c in calls if c[1] == kw] for kw in sorted(set(c[1] for c in calls))]
+            for group in groups:
+                for api in (False, True):
+                    order = list(group)
+                    rng.shuffle(order)
+                    try:
+                        if api:
+                            p = Program(libraries=libs, working_dir=tmp)
+                            for rn, kw, args in order:
+                                p.add_command(cls, rn, dict(args))
+                        else:
+                            src = "".join("%s = %s(%s)\n" % (rn, cls.name, ", ".join("%s = %s" % (n, progrun.render_value(v)) for n, v in args)) for rn, kw, args in order)
+                            p = Program.from_source(src, libraries=libs, working_dir=tmp)
+                        t = p.to_string()
+                    except Exception as e:
+                        ctx.fail("a program of %s commands with a DataType keyword cannot be built / saved: %s" % (cls.name, progrun.classify(e)), {"commands": [list(map(str, c)) for c in order][:6]})
+                        continue
+                    desc = {"built": "add_command" if api else "from_source", "libraries": list(libs), "commands": ["%s = %s(%s)" % (rn, cls.name, ", ".join("%s = %r" % nv for nv in args)) for rn, kw, args in order][:30], "saved_text": t[:3000],
+                            "data": "in.nc / in.csv hold the fields " + ", ".join("%s = %r" % kv for kv in fields.items())}
+                    ctx.case("keywords %s %s" % (api, t), sample={"built": desc["built"], "text": t[:400]})
+                    ctx.count("datatype_keyword_programs")
+                    ctx.count("datatype_keyword_commands", len(order))
+                    try:
+                        q = Program.from_source(t, libraries=libs, working_dir=tmp)
+                    except Exception as e:
+                        ctx.fail("a saved program with DataType keywords does not load back: %s" % progrun.classify(e), desc)
+                        continue
+                    a = [(c.result_name, c.name, [(x.name, x.value) for x in c.arguments]) for c in p.commands.values()]
+                    b = [(c.result_name, c.name, [(x.name, x.value) for x in c.arguments]) for c in q.commands.values()]
+                    ra, rb = outcomes(p), outcomes(q)
+                    for rn in ra:
+                        if ra[rn] != rb.get(rn):
+                            ctx.fail("after save + load the command %s (%s) gives %r; in the original program it gives %r" % (
+                                rn, ", ".join("%s = %s" % (x.name, x.value) for x in p.commands[rn].arguments if x.name not in ("Values",)), rb.get(rn), ra[rn]), desc)
+                            break
+                    if a != b:
+                        diff = next((x, y) for x, y in zip(a + [None], b + [None]) if x != y)
+                        ctx.fail("save + load changed a command whose DataType is given by keyword: %r became %r" % diff, desc)
+
 
 def run(ctx):
     ctx.check_proofs(["MPilot.Props.C15", "MPilot.Props.C15Program"])
@@ -392,6 +502,7 @@ def run(ctx):
         ctx.count("eems_models")
         if cleaned_view(p) != cleaned_view(q):
             ctx.fail("EEMS model changed by serialise + load", {"source": sc.source, "text": t})
+    datatype_keywords(ctx)
     return ctx.finish(
         rule="programs of 1-6 commands over the test library (typed Number/String/Boolean/Path/List/nested-list/Tuple parameters, undeclared extras, references "
              "through direct, list and nested-list parameters given by name or as Command objects, metadata) with strings containing quotes, backslashes (incl. "
